@@ -18,7 +18,7 @@ LEVEL_NOTE = ("real: allmydata.client._Client, Uploader/Encoder/Tahoe2ServerSele
               "stub: reactor, foolscap wire (SimRef, per-connection FIFO), os.urandom (seeded), CPU thread pool (simulated: synchronous, or completion as a reactor event after a drawn delay), RSA keygen (pool); "
               "trusted: oracles/sharecheck.py + oracles/refhash.py (hashlib, zfec, AES only)")
 REAL = ["allmydata.client._Client", "immutable.upload/encode/layout", "immutable.downloader.*", "immutable.filenode/literal", "storage_client", "storage.server"]
-STUB = ["reactor/time", "foolscap transport (SimNet/SimRef)", "os.urandom", "cputhreadpool (SimThreadPool: in a third of the runs the result is delivered by a reactor event after a drawn delay, otherwise synchronously)"]
+STUB = ["reactor/time", "foolscap transport (SimNet/SimRef; per-connection FIFO; in half of the runs arrivals are batched: several messages handed over before queued zero-delay turns run)", "os.urandom", "cputhreadpool (SimThreadPool: in a third of the runs the result is delivered by a reactor event after a drawn delay, otherwise synchronously)"]
 ASSUMPTIONS = ["per-connection FIFO delivery (TCP)", "PYTHONHASHSEED=0 is part of the replay key"]
 
 
